@@ -47,25 +47,21 @@ def _sites(fl: Flow, rw: str | None) -> list[tuple[Site, str]]:
 
 
 def _quant(site: Site, kind: str, elt_templates: list[str], dom_templates: list[str], binds: dict) -> bool:
-    """a must-fact `all(<elt> for v in <dom>)` / `any(...)` with the given element and domain shapes"""
+    """a must-fact that, in quantifier normal form (sa/norm.py:qnf), reads `all v in <dom>: [filters ->] <elt>` resp.
+    `any v in <dom>: filters and <elt>`, whatever its spelling (any/all over a generator, truthiness of a filtered list, filter())"""
     for f in site.facts:
         if f.kind != "atom":
             continue
-        e = f.expr
-        if not (isinstance(e, ast.Call) and isinstance(e.func, ast.Name) and e.func.id == kind and len(e.args) == 1):
+        q = norm.qnf(f.expr)
+        if q is None:
             continue
-        gen = e.args[0]
-        if not isinstance(gen, (ast.GeneratorExp, ast.ListComp)) or len(gen.generators) != 1:
-            continue
-        gg = gen.generators[0]
-        if not isinstance(gg.target, ast.Name):
+        k, var, dom, filters, body = q
+        if k != kind:
             continue
         b = dict(binds)
-        b["v"] = ast.Name(gg.target.id, ast.Load())
-        conds = [gen.elt]
-        if any(norm.any_match(elt_templates, c, b) is not None for c in conds) and any(
-            norm.contains(gg.iter, T(d), binds) for d in dom_templates
-        ):
+        b["v"] = ast.Name(var, ast.Load())
+        conds = [body] if kind == "all" else [body, *filters]
+        if any(norm.any_match(elt_templates, c, b) is not None for c in conds) and any(norm.contains(dom, T(d), binds) for d in dom_templates):
             return True
     return False
 
@@ -248,7 +244,7 @@ def closure(repo: Repo, chk: Check) -> None:
                "a block argument of a nested block makes the closure unresolvable (None)",
                "values that are block arguments of nested blocks no longer abort the closure computation")
     ext = [s for s in fl.calls("extend") if s.reachable and has_fact(s, ["is_side_effect_free($_)"])]
-    ok = any(norm.match(T("$w.extend($v.owner.operands)"), s.node) is not None for s in ext)
+    ok = any(norm.match(T("$w.extend($v.owner.operands)"), s.node) is not None or norm.match(T("$w.extend($v.owner.operands)"), s.expand(s.node)) is not None for s in ext)
     chk.result(ok, "C06.closure-pure", f"{f.key}:all-operands", ext[0].where() if ext else f.where,
                "all operands of an accepted op are inspected in turn", "operands of accepted ops are no longer all followed: the closure is incomplete")
     starts = [s for s in fl.stmts(ast.Assign, ast.AnnAssign) if s.reachable and s.node.value is not None and
@@ -268,7 +264,14 @@ def closure(repo: Repo, chk: Check) -> None:
     # skipping conditions must not hide in-scope producers
     conts = [s for s in fl.stmts(ast.Continue) if s.reachable]
     for s in conts:
-        okc = bool(has_fact(s, ["$v in $s.args", "not val_is_defined_in_block($v, $s)", "$v.owner in $_"], {"s": scope}))
+        reasons = ["$v in $s.args", "not val_is_defined_in_block($v, $s)", "$v.owner in $_"]
+        okc = bool(has_fact(s, reasons, {"s": scope}))
+        if not okc:
+            # a disjunction of acceptable reasons is an acceptable reason
+            for fct in s.facts:
+                if fct.kind == "atom" and isinstance(fct.expr, ast.BoolOp) and isinstance(fct.expr.op, ast.Or) and all(
+                        norm.any_match(reasons, norm.canon(v), {"s": scope}) is not None for v in fct.expr.values):
+                    okc = True
         chk.result(okc, "C06.closure-pure", f"{f.key}:skip@{len([x for x in conts if x.line <= s.line])}", s.where(),
                    "a value is skipped only if it is a scope argument, defined outside the scope, or already collected",
                    "a value is skipped under a condition that does not establish that it needs no move", s.fact_texts)
@@ -412,7 +415,9 @@ def loop_level(repo: Repo, chk: Check) -> None:
                        "the yield operand of this state is the next-iteration copy's out_state",
                        f"yield operand redirect is operands[{ast.unparse(idx)}] = {ast.unparse(val)}; expected operands[in_state.index - 1] = <in-loop copy>.setup.out_state")
     er = [s for s in fl.calls("erase") if s.reachable]
-    chk.result(any(norm.match(T("$i.erase($op.in_state, $rw)"), s.node, {"op": op, "rw": rw or "rewriter"}) is not None for s in er),
+    chk.result(any(len(s.node.args) == 2 and not s.node.keywords
+                   and norm.match(T("$op.in_state"), s.expand(s.node.args[0]), {"op": op}) is not None
+                   and norm.match(T("$rw"), s.expand(s.node.args[1]), {"rw": rw or "rewriter"}) is not None for s in er),
                "C06.loop-substitution", f"{f.key}:erase-original", er[0].where() if er else f.where,
                "the original setup is erased and its uses redirected to the loop-carried block argument")
     for s in [x for x in fl.calls("insert_op") if x.reachable]:
@@ -439,7 +444,11 @@ def loop_level(repo: Repo, chk: Check) -> None:
             stmts["init operand redirected"] = s.stmt
         elif norm.any_match(["$l.body.block.last_op.operands"], base, {"l": loop}) is not None:
             stmts["yield operand redirected"] = s.stmt
-    fl2 = Flow(f, repo, events={lab: (lambda st, want=st_: st is want) for lab, st_ in stmts.items()})
+    def _pos(st: ast.AST) -> tuple:
+        # statements of helpers inlined at walk time are copies: identify a statement by its source position
+        return (type(st).__name__, getattr(st, "lineno", None), getattr(st, "col_offset", None), getattr(st, "end_lineno", None))
+
+    fl2 = Flow(f, repo, events={lab: (lambda st, want=_pos(st_): _pos(st) == want) for lab, st_ in stmts.items()})
     erases = [s for s in fl2.calls("erase", "erase_op", "erase_matched_op") if s.reachable]
     if not erases:
         raise AnalysisError(f"{f.where}: the erase of the original setup was not found")
@@ -469,8 +478,9 @@ def clone_order(repo: Repo, chk: Check) -> None:
     for s in loops:
         body = s.node.body
         clone_i = next((i for i, st in enumerate(body) if any(callee_name(n) == "clone" for n in ast.walk(st))), None)
-        map_i = next((i for i, st in enumerate(body) if isinstance(st, ast.For) and any(
-            isinstance(n, ast.Assign) and isinstance(n.targets[0], ast.Subscript) for n in ast.walk(st))), None)
+        map_i = next((i for i, st in enumerate(body) if (isinstance(st, ast.For) and any(
+            isinstance(n, ast.Assign) and isinstance(n.targets[0], ast.Subscript) for n in ast.walk(st))) or any(
+            isinstance(n, ast.Call) and norm.match(T("$m.update(zip($o.results, $n.results))"), n) is not None for n in ast.walk(st))), None)
         ok = ok or (clone_i is not None and map_i is not None and clone_i < map_i)
     chk.result(ok, "C06.clone-order", f"{f.key}:map-results-in-loop", loops[0].where() if loops else f.where,
                "results of each cloned input op are mapped inside the loop, before the next clone",
